@@ -16,7 +16,9 @@ ALPHA = alpha(3)
 def seq_table(seqs, length):
     rows = []
     for q, s in enumerate(seqs):
-        ops = ["{%d,%d,%d}" % (k, i, (q + j) % 3) for j, (k, i) in enumerate(s)]
+        # pool item per operation: a deterministic bit pattern of the sequence number, so that the same item recurs within a sequence
+        # (aliasing: an item pushed twice, or written back into the slot that already holds it) as well as distinct items
+        ops = ["{%d,%d,%d}" % (k, i, ((q >> j) & 1) if q % 3 else (q + j) % 3) for j, (k, i) in enumerate(s)]
         ops += ["{0,0,0}"] * (length - len(ops))
         rows.append("{" + ",".join(ops) + "}")
     return "#define NSEQ %d\n#define SEQLEN %d\nstatic const struct op SEQS[NSEQ][SEQLEN] = {\n%s\n};\n" % (len(seqs), length, ",\n".join(rows))
